@@ -92,6 +92,13 @@ class Scenario:
         if self.side == "server-eager":
             self.w.add_open_server(ctx.server)
         self.lab = self.w.label(self.conn)
+        self.cc = 0                                  # ConnectionClosed(conn) events the world has delivered to the layer
+        orig = self.w._handle
+
+        def counting(ev):
+            if isinstance(ev, events.ConnectionClosed) and ev.connection is self.conn: self.cc += 1
+            return orig(ev)
+        self.w._handle = counting
         self.off = 0
         self.tpos, self.cpos = 0, 0
         self.hello_len = 0
@@ -154,10 +161,11 @@ class Scenario:
         return len(recs)
 
     def step(self, model_tokens, action):
-        t0 = len(self.w.trace)
+        c0 = self.cc
         action()
-        if callable(model_tokens): model_tokens = model_tokens(self.w.trace[t0:])
-        self.steps.append([model_tokens, self.observe()])
+        # the world answers a CloseConnection of a readable connection with ConnectionClosed within the same step
+        extra = self.cc - c0 - model_tokens.count("C")
+        self.steps.append([list(model_tokens) + ["C"] * max(0, extra), self.observe()])
 
     # -- delivering inbound bytes ----------------------------------------------------------------------------------
     def total(self): return sum(len(r[0]) for r in self.records)
@@ -185,7 +193,7 @@ class Scenario:
         for x, y in segs:
             mseg = model[self.to_model(x):self.to_model(y)]
             self.delivered = y
-            self.step(["D" + hx(mseg)], lambda x=x, y=y: self.w.recv(self.conn, real[x:y]))
+            self.step(["D" + hx(mseg)], lambda x=x, y=y: self.recv(real[x:y]))
 
     def fully_delivered_plain(self):
         """plaintext of the records that have been delivered completely, and whether a delivered record is close_notify"""
@@ -251,6 +259,15 @@ class Scenario:
                     raise Skip()
                 self.collect_peer("close")
                 self.deliver(op[1], hold=False)
+            elif k == "junk":
+                # a plaintext fatal alert record: handshake failure while establishing, "TLS Error" afterwards
+                self.deliver([], hold=False)
+                if self.delivered == 0 or self.conn not in w.transports: continue
+                established = self.tl.tunnel_state.name == "OPEN"
+                self.records.append([b"\x15\x03\x03\x00\x02\x02\x28", mrec(0x99) if established else mrec(0x16, b"\x02"), b""])
+                self.junk = True
+                self.deliver([], hold=False)
+                break
             elif k == "tc":
                 self.deliver([], hold=False)
                 self.step(["C"], self.tcp_close)
@@ -258,14 +275,18 @@ class Scenario:
             elif k == "cx":
                 n = n_do; n_do += 1
                 self.child_rules["o%d" % n] = "x"
-                readable = bool(self.conn.state & ConnectionState.CAN_READ)
-                # the world answers a CloseConnection of a readable connection with ConnectionClosed within the same step
-                toks = lambda tr, n=n: ["O%d" % n] + (["C"] if readable and ("close", self.lab, False) in tr else [])
-                self.step(toks, lambda n=n: w.inject(self.Do([commands.CloseConnection(self.conn)], n)))
+                self.step(["O%d" % n], lambda n=n: w.inject(self.Do([commands.CloseConnection(self.conn)], n)))
                 break
         self.deliver([], hold=False) if case.get("flush", True) and self.conn in w.transports and (self.conn.state & ConnectionState.CAN_READ) else None
 
     premature_send = False
+    junk = False
+
+    def recv(self, data):
+        """bytes from the peer; like tcp_close: server.py's reader keeps reading after the TLS layer cleared CAN_READ on close_notify"""
+        from mitmproxy.proxy import events
+        if not self.w.recv(self.conn, data) and self.conn in self.w.transports:
+            self.w.deliver(events.DataReceived(self.conn, data))
 
     def tcp_close(self):
         """EOF from the peer.  After a close_notify the TLS layer has cleared CAN_READ on the connection, for which world.peer_close
@@ -283,20 +304,23 @@ class Check(PropertyCheck):
     prop = "C14"
     design_ref = "§5 C14"
     level_text = ("Lean theorems about the model of TunnelLayer + TLSLayer/ServerTLSLayer/ClientTLSLayer with OpenSSL as an abstract codec obeying the "
-                  "stream-faithfulness law (structure Laws): child_receives_exactly (one receive_data call hands the child exactly the plaintext that the "
-                  "ciphertext received so far newly decodes, once and in order, and leaves nothing decodable behind), client_receives_exactly (after a child "
-                  "SendData the ciphertext emitted so far decodes at the peer to exactly the payloads accepted so far), close_after_data (ConnectionClosed "
-                  "from close_notify follows the data of the same call and comes only when everything before it was delivered), "
-                  "queued_during_handshake_in_order (for EVERY event history: events routed to the child = events the child handled ++ the queue, in "
-                  "order, nothing lost or duplicated, unless the client handshake failed — then a prefix). Model tied to the real layers + real TlsConfig + "
+                  "stream-faithfulness law (structure Laws; for ANY lawful codec, any child layer, any state): child_receives_exactly (a receive_data call hands the "
+                  "child exactly the plaintext that the ciphertext received so far — however segmented — newly decodes, once and in order, and leaves nothing "
+                  "decodable behind when the recv loop ends normally), client_receives_exactly (after a child SendData the ciphertext emitted so far is the "
+                  "engine's output and decodes at the peer to exactly the payloads accepted so far; the invariants are preserved), close_after_data "
+                  "(ConnectionClosed from close_notify is the last event of the call, after its DataReceived, only when everything before it was delivered; no "
+                  "close otherwise), queued_during_handshake_in_order (while ESTABLISHING on an open connection events are stored and the child sees nothing; "
+                  "_handshake_finished hands them over in arrival order, each once, and empties the store). Model tied to the real layers + real TlsConfig + "
                   "real OpenSSL by scenario runs compared step by step (child events with chunk boundaries, decrypted plaintext, closes/opens/hooks, final state).")
     level_note = ("PARTIAL: all byte-transparency theorems are RELATIVE to the stream-faithfulness law of the TLS engine (OpenSSL's; structure fields, never "
-                  "axioms; shown satisfiable by a trivial pass-through codec; the framed reference codec of the driver is validated differentially, not "
-                  "proved lawful). child_receives_exactly / client_receives_exactly / close_after_data are per-call statements (receive_data / send_data) — the "
-                  "whole-history versions (inbound stream = concatenation of all segments) are not proved; queued_during_handshake_in_order is for all "
-                  "histories. Assumes Layer.handle_event's pause/replay (C04): hooks and OpenConnection are answered before the next event. Not modelled: "
-                  "ignore_connection, ServerTLSLayer.wait_for_clienthello hand-over, DTLS. TLS 1.3 only in the differential run.")
-    technique = "Lean 4 proof (model of the tunnel/TLS layers, parametric in a lawful codec; induction over histories for the queue invariant) + real-OpenSSL scenario correspondence"
+                  "axioms; shown satisfiable by a pass-through codec `idLaws`; the framed reference codec of the driver is validated differentially, not "
+                  "proved lawful). The four theorems are per-call statements (receive_data / send_data / event_to_child / _handshake_finished, for arbitrary "
+                  "states); the composition over whole event histories (inbound stream = concatenation of all DataReceived segments incl. the ClientHello buffer; "
+                  "invariants `emitted = engine output`, `accepted = engine plaintext` established from Start) is NOT proved in Lean — it is covered only by the "
+                  "scenario runs. Assumes Layer.handle_event's pause/replay (C04): hooks and OpenConnection are answered before the next event. Not modelled: "
+                  "ignore_connection, ServerTLSLayer.wait_for_clienthello hand-over, DTLS. TLS 1.3 only in the differential run. The harness replays EOF / data "
+                  "after a close_notify directly (world.py declines once the TLS layer cleared CAN_READ, proxy/server.py's reader does not).")
+    technique = "Lean 4 proof (model of the tunnel/TLS layers, parametric in a lawful codec; induction over the recv/bio_read loops and the event queue) + real-OpenSSL scenario correspondence"
     rule = ("scenario = side (ClientTLSLayer / ServerTLSLayer opened by the child / ServerTLSLayer on an open connection) x handshake flights cut into "
             "segments (incl. tail held back so application data follows Finished in one segment) x peer writes of record sizes 1..16384 cut anywhere "
             "(inside records, across writes) x child sends interleaved x unrelated events x close_notify / TCP close / child close. distinct = distinct "
@@ -332,6 +356,8 @@ class Check(PropertyCheck):
             yield {"side": side, "ops": [["cs", 10], ["hs", [[], []], 0], ["tc"]]} if side == "never" else {"side": side, "ops": [["ot"], ["hs", [[0.2], [0.7]], 0], ["pw", [4096] * 5, [0.1, 0.2, 0.21, 0.8], 0], ["tc"]]}
             yield {"side": side, "ops": [["hs", [[0.4]], 0], ["tc"]]}
             yield {"side": side, "ops": [["tc"]]}
+            yield {"side": side, "ops": [["hs", [[0.4]], 0], ["pw", [10], [], 0], ["junk"]]}
+            yield {"side": side, "ops": [["hs", [[0.4], []], 1], ["junk"]]}
         while True:
             ops = []
             if rng.chance(0.25): ops.append(["ot"])
@@ -347,6 +373,7 @@ class Check(PropertyCheck):
             r = rng.random()
             if r < 0.45: ops.append(["pc", cuts(2)])
             if rng.chance(0.3): ops.append(["cs", rng.randint(1, 3000)])
+            if rng.chance(0.12): ops.insert(rng.randint(1, len(ops)), ["junk"])
             r = rng.random()
             if r < 0.35: ops.append(["tc"])
             elif r < 0.5: ops.append(["cx"])
